@@ -130,6 +130,7 @@ def run_case(st, base, naming, fmt, ps, us, allow, crowd=0):
         apply_status(cf, "modified-staged" if i % 2 else "modified-unstaged", files)
     before_tree = world.read_tree(".")
     before = gw.state()
+    staged_names = set(x for x in gw.git("diff", "--cached", "--name-only", "-z").split("\0") if x)
     status_text = before["status"]
     args = ["update", "--patch", "--no-fetch"] + (["--allow-dirty"] if allow else [])
     o = world.cli(*args)
@@ -168,8 +169,7 @@ def run_case(st, base, naming, fmt, ps, us, allow, crowd=0):
     allowed = {fmt, pfile}
     if crowd:
         us = "crowd"
-    staged_before = {l[3:].strip('"') for l in status_text if l[:1] not in (" ", "?")}
-    extra = [f for f in changed if f not in allowed and f not in staged_before and not any(f in s for s in staged_before)]
+    extra = [f for f in changed if f not in allowed and f not in staged_names and ("renamed-" + f) not in staged_names]
     if extra:
         st.outcomes["violation"] += 1
         st.violation(f"C11:unstaged-edit-swept-into-bump-commit:{us}:{ctx}", case, {"commit_files": changed, "git_status_before": status_text})
